@@ -19,7 +19,7 @@ use log4rs::encode::pattern::PatternEncoder;
 use serde_json::{json, Value};
 use std::sync::Arc;
 
-pub const ZONES: [&str; 11] = [
+pub const ZONES: [&str; 12] = [
     "UTC",
     "Etc/GMT+12",
     "Asia/Kolkata",
@@ -31,6 +31,8 @@ pub const ZONES: [&str; 11] = [
     "EST5EDT,M3.2.0,M11.1.0",
     "NZST-12NZDT,M9.5.0,M4.1.0/3",
     "XXX-5:45",
+    // an offset with a seconds part (local mean time, historical zones)
+    "LMT-5:30:15",
 ];
 
 fn interval(unit: Unit, n: i64) -> TimeTriggerInterval {
@@ -381,6 +383,49 @@ pub fn child_main(args: &[String]) -> i32 {
                     Ok(next) => {
                         if next <= current {
                             rep.violation("C16:huge-interval:schedule-not-in-the-future", json!({"call": d, "next": next.to_rfc3339()}));
+                        }
+                    }
+                }
+            }
+        }
+    }
+
+    // (4c) zones whose offset never changes: boundaries up to the end of year 9999 are exact
+    if table.changes.is_empty() {
+        let starts: [(i64, i64, i64, i64); 6] = [(2024, 5, 17, 37_000), (9998, 12, 31, 86_370), (9999, 1, 1, 0), (9999, 3, 15, 43_200), (9999, 11, 30, 5), (9000, 6, 1, 1)];
+        for (y, m, d, sod) in starts {
+            let ts = days_from_civil(y, m, d) * 86400 + sod;
+            let LocalResult::Single(current) = Local.timestamp_opt(ts, 0) else { continue };
+            let cy = current.year() as i64;
+            for unit in [Unit::Month, Unit::Year, Unit::Day, Unit::Week, Unit::Hour] {
+                let reach: Vec<i64> = match unit {
+                    Unit::Year => vec![1, 2, 9999 - cy, 9998 - cy, 10_000 - cy, 7975],
+                    Unit::Month => vec![1, 2, 11, 12, (9999 - cy) * 12, (9999 - cy) * 12 + 11 - (current.month0() as i64), (9999 - cy) * 12 + 12, 13],
+                    Unit::Day => vec![1, 30, 365, 100_000],
+                    Unit::Week => vec![1, 52, 10_000],
+                    _ => vec![1, 24, 1_000_000],
+                };
+                for n in reach {
+                    if n < 1 {
+                        continue;
+                    }
+                    for modulate in [false, true] {
+                        let l = expected_next(naive_of(&current), unit, n, modulate);
+                        let (ly, ..) = l.ymd_hms();
+                        if ly > 9999 {
+                            continue; // beyond what the trigger promises to schedule exactly
+                        }
+                        let Some(want) = local_instant(l) else { continue };
+                        rep.case_enumerated(true);
+                        rep.count("far_future_boundaries_asserted", 1);
+                        let d = json!({"zone": zone, "current": current.to_rfc3339(), "unit": format!("{:?}", unit), "n": n, "modulate": modulate});
+                        match trap::catch(|| TimeTrigger::verif_get_next_time(current, interval(unit, n), modulate)) {
+                            Err(p) => rep.violation(&format!("C16:panic:get_next_time:far-future:{}", panic_class(&p.message)), json!({"call": d, "panic": p.message})),
+                            Ok(next) => {
+                                if next != want {
+                                    rep.violation(&format!("C16:wrong-boundary:far-future:{:?}", unit), json!({"call": d, "expected": want.to_rfc3339(), "got": next.to_rfc3339()}));
+                                }
+                            }
                         }
                     }
                 }
